@@ -430,7 +430,8 @@ func Slice(sc *Scope, x, from, to *Term) (*Term, error) {
 // argOK implements the reference rule for passing arg to a parameter.
 func argOK(arg *Term, in reflect.Type) bool {
 	if isIntLiteral(arg) && IsNum(in) {
-		return true
+		// as a Go untyped constant: the value has to fit the parameter
+		return intLiteralFits(arg, in)
 	}
 	if arg.T == NilT {
 		switch in.Kind() {
@@ -440,6 +441,30 @@ func argOK(arg *Term, in reflect.Type) bool {
 		return false
 	}
 	return arg.T.AssignableTo(in)
+}
+
+// intLiteralFits: the value of a (signed) integer literal is representable in
+// the numeric type t.
+func intLiteralFits(a *Term, t reflect.Type) bool {
+	neg := false
+	for a.K == KUnary {
+		if a.Op == "-" {
+			neg = !neg
+		}
+		a = a.Sub[0]
+	}
+	v := int64(a.Int)
+	if neg {
+		v = -v
+	}
+	z := reflect.Zero(t)
+	switch {
+	case z.CanInt():
+		return !z.OverflowInt(v)
+	case z.CanUint():
+		return v >= 0 && !z.OverflowUint(uint64(v))
+	}
+	return true
 }
 
 func isIntLiteral(a *Term) bool {
